@@ -442,7 +442,10 @@ prop("C04", level="fault_enumeration",
 
 prop("C05", level="fault_enumeration",
      stages=[dict(pkg="fullstack", test="TestC05", sub="retire", race=True, vary_gomaxprocs=True,
-                  cases=dict(quick=800, thorough=10000), timeout=3600)],
+                  cases=dict(quick=800, thorough=10000), timeout=3600),
+             # a pause and an abort both signalled between two blocks (traversal parked in a store read), either order
+             dict(pkg="fullstack", test="TestC05Signals", sub="signals", race=True, vary_gomaxprocs=True,
+                  cases=dict(quick=200, thorough=2000), timeout=3600)],
      technique="runtime monitoring: listener-event monitor (completed / cancelled / network-error counts per request), recording ConnManager (Protect/Unprotect balance), PeerState and Stats snapshots at quiescence, over enumerated request-hook decisions x requestor messages x responder API calls x send-fault placements with scripted raw requestors; Go race detector",
      level_text=("Raw requestor peers send 1-2 requests to a real responder; enumerated: request-hook decision in {validate, reject, terminate-with-error, pause} x "
                  "requestor message in {none, cancel, update (accepted / failing)} after the j-th response message x responder API in {none, Pause->Unpause, "
